@@ -20,6 +20,8 @@ pub enum AV { Int(i64), Bin(Vec<u8>), Tup(Option<String>, Vec<(Option<String>, A
 fn gen_av(rng: &mut Rng, d: usize) -> AV {
     match rng.below(if d == 0 { 2 } else { 5 }) {
         0 => AV::Int(*rng.pick(&[0i64, 1, -1, 7, 255, 256, 65536, 1 << 40])),
+        1 if rng.chance(1, 3) => { // periodic bytes: the same value has several factorisations as unit x count
+            let unit: Vec<u8> = (0..1 + rng.below(3)).map(|_| rng.below(4) as u8 + 0x60).collect(); let n = *rng.pick(&[2usize, 4, 6, 12]); AV::Bin(unit.repeat(n)) }
         1 => { let n = *rng.pick(&[0usize, 1, 2, 3, 9, 40]); AV::Bin((0..n).map(|i| (i as u8).wrapping_mul(37).wrapping_add(rng.below(3) as u8)).collect()) }
         _ => {
             let n = rng.below(4);
@@ -72,7 +74,15 @@ fn build(v: &AV, path: &str, rng: &mut Rng, pre: &mut Vec<String>, module: &mut 
     match path {
         "computed" => match v {
             AV::Int(i) => { let a = rng.range(-50, 50); format!("[{}, {}] __integer_add__", i - a, a) }
-            AV::Bin(b) => { let cut = if b.is_empty() { 0 } else { rng.below(b.len() + 1) }; format!("[{}, {}] __binary_concat__", lit(&AV::Bin(b[..cut].to_vec())), lit(&AV::Bin(b[cut..].to_vec()))) }
+            AV::Bin(b) => {
+                // as unit x count when the bytes are periodic (any of the factorisations), as a slice of a longer literal, or as a concat
+                let periods: Vec<usize> = (1..=b.len() / 2).filter(|p| b.len() % p == 0 && b.chunks(*p).all(|c| c == &b[..*p])).collect();
+                match rng.below(3) {
+                    0 if !periods.is_empty() => { let p = *rng.pick(&periods); format!("[{}, {}] __binary_repeat__", lit(&AV::Bin(b[..p].to_vec())), b.len() / p) }
+                    1 if !b.is_empty() => { let (pre, post) = (rng.below(3), rng.below(3)); let mut big = vec![0x11u8; pre]; big.extend_from_slice(b); big.extend(vec![0x22u8; post]); format!("[{}, {}, {}] __binary_slice__", lit(&AV::Bin(big)), pre, pre + b.len()) }
+                    _ => { let cut = if b.is_empty() { 0 } else { rng.below(b.len() + 1) }; format!("[{}, {}] __binary_concat__", lit(&AV::Bin(b[..cut].to_vec())), lit(&AV::Bin(b[cut..].to_vec()))) }
+                }
+            }
             AV::Tup(n, f) => format!("{}[{}]", n.clone().unwrap_or_default(), f.iter().map(|(l, x)| { let e = build(x, "computed", rng, pre, module, fresh); match l { Some(l) => format!("{}: {}", l, e), None => e } }).collect::<Vec<_>>().join(", ")),
         },
         "spread" => match v {
